@@ -130,7 +130,7 @@ class DSDLDefinition(ReadableDSDLFile):
         # root directories. This is a stronger inference than the previous one because it requires the file to exist
         # but we do it second because it reads the filesystem.
         # A target that exists in the working directory and has a root namespace name on its path is left to INFERENCE 4.
-        root_parts = [x.parts[-1] for x in valid_dsdl_roots if len(x.parts) == 1]
+        root_parts = [x.parts[-1] for x in valid_dsdl_roots if len(x.parts) == 1 and x.parts[-1] != ".."]
         parts = list(dsdl_path.parent.parts)
         if not dsdl_path.is_absolute() and not (found_as_given and any(x in root_parts for x in parts)):
             for path_to_root in valid_dsdl_roots:
